@@ -297,7 +297,7 @@ def configs(ctx):
             for perm in (True, False):
                 out.append(dict(proposal=prop, opp=opp, perm=perm, alpha=1.0, data_seed=r.randrange(1 << 30), depth=depth, samples=1,
                                 grid=4, style="gauss", outlier_prob=0.05, swarm_runs=3, swarm_N=4, deep_paths=3 if quick else 12, deep_len=7 if quick else 8))
-    for i in range(12 if quick else 150):
+    for i in range(12 if quick else 800):
         out.append(dict(proposal=r.choice(PROPOSALS), opp=r.choice([0.0, 0.1, 0.5, round(r.uniform(0.01, 0.95), 3)]), perm=r.random() < 0.6,
                         alpha=round(math.exp(r.uniform(math.log(0.05), math.log(20))), 4), data_seed=r.randrange(1 << 30),
                         depth=r.choice([3, 4, 4] if quick else [4, 4, 5]), samples=r.choice([1, 2]), grid=r.choice([3, 5, 7]),
